@@ -1,4 +1,8 @@
 #include <solver/cgd.h>
+#ifdef NANO_VERIF
+#include <nano/verif.h>
+#include <vector>
+#endif
 
 using namespace nano;
 
@@ -107,11 +111,32 @@ solver_state_t solver_cgd_t::do_minimize(const function_t& function, const vecto
             //  - if not a descent direction
             //  - or two consecutive gradients far from being orthogonal
             //      (see "Numerical optimization", Nocedal & Wright, 2nd edition, p.124-125)
+#ifdef NANO_VERIF
+            bool verif_restarted = false;
+#endif
             if (!cstate.has_descent(cdescent) ||
                 (std::fabs(cstate.gx().dot(pstate.gx())) >= orthotest * cstate.gx().dot(cstate.gx())))
             {
                 cdescent = -cstate.gx();
+#ifdef NANO_VERIF
+                verif_restarted = true;
+#endif
             }
+#ifdef NANO_VERIF
+            {
+                const auto          size = function.size();
+                std::vector<double> values;
+                values.push_back(static_cast<double>(size));
+                values.push_back(beta);
+                values.push_back(verif_restarted ? 1.0 : 0.0);
+                values.push_back(orthotest);
+                values.insert(values.end(), pstate.gx().data(), pstate.gx().data() + size);
+                values.insert(values.end(), pdescent.data(), pdescent.data() + size);
+                values.insert(values.end(), cstate.gx().data(), cstate.gx().data() + size);
+                values.insert(values.end(), cdescent.data(), cdescent.data() + size);
+                ::nano::verif::event_values(::nano::verif::ev_cgd_direction, this, values.data(), static_cast<int>(values.size()));
+            }
+#endif
         }
 
         pstate   = cstate;
